@@ -41,6 +41,10 @@ structure Good (s : State) : Prop where
   halfHeld : ∀ x ∈ s.half, x.1 ∈ s.holding
   /-- a container is recorded iff its request was relayed, unless its creation is half done -/
   settled : ∀ c, (c ∈ s.store ↔ c ∈ s.sent) ∨ ∃ b, (b, c) ∈ s.half
+  /-- a half-done creation has exactly one of its halves done … -/
+  halfXor : ∀ x ∈ s.half, (x.2 ∈ s.store ∧ x.2 ∉ s.sent) ∨ (x.2 ∉ s.store ∧ x.2 ∈ s.sent)
+  /-- … and is listed once -/
+  halfNodup : (s.half.map (·.2)).Nodup
   storeNodup : s.store.Nodup
   sentNodup : s.sent.Nodup
   /-- only the writer is being synchronised -/
@@ -76,8 +80,35 @@ theorem Good.noSyncWhileHeld {s : State} (g : Good s) {b : Bid} (hb : b ∈ s.ho
   · have := g.excl p (g.inSection p (Or.inl hp)); rw [this] at hb; cases hb
   · have := g.excl p (g.inSection p (Or.inr hp)); rw [this] at hb; cases hb
 
+/-- in a list of half-done creations with distinct containers, erasing the entry of `c` leaves
+    no entry of `c` -/
+theorem snd_ne_of_mem_erase {l : List (Bid × Cid)} (hn : (l.map (·.2)).Nodup) {b : Bid} {c : Cid}
+    (hm : (b, c) ∈ l) {x : Bid × Cid} (hx : x ∈ l.erase (b, c)) : x.2 ≠ c := by
+  induction l with
+  | nil => cases hm
+  | cons y l ih =>
+    simp only [List.map_cons, List.nodup_cons] at hn
+    by_cases hy : y = (b, c)
+    · subst hy
+      rw [List.erase_cons_head] at hx
+      intro h
+      exact hn.1 (List.mem_map.2 ⟨x, hx, h⟩)
+    · have hm' : (b, c) ∈ l := by
+        rcases List.mem_cons.1 hm with h | h
+        · exact absurd h.symm hy
+        · exact h
+      rw [List.erase_cons_tail (by simpa using hy)] at hx
+      rcases List.mem_cons.1 hx with rfl | hx
+      · intro h
+        exact hn.1 (List.mem_map.2 ⟨(b, c), hm', h.symm⟩)
+      · exact ih hn.2 hm' hx
+
+theorem nodup_map_erase {l : List (Bid × Cid)} (hn : (l.map (·.2)).Nodup) (x : Bid × Cid) :
+    ((l.erase x).map (·.2)).Nodup :=
+  hn.sublist (List.Sublist.map _ List.erase_sublist)
+
 theorem good_relay_first {s : State} (g : Good s) {b : Bid} {c : Cid}
-    (hb : b ∈ s.holding) (hs : c ∉ s.sent) :
+    (hb : b ∈ s.holding) (hs : c ∉ s.sent) (hst : c ∉ s.store) :
     Good { s with sent := c :: s.sent, half := (b, c) :: s.half, pl := deliver s.pl c } where
   excl := g.excl
   halfHeld := by
@@ -92,6 +123,25 @@ theorem good_relay_first {s : State} (g : Good s) {b : Bid} {c : Cid}
     · rcases g.settled c' with h1 | ⟨b', hb'⟩
       · left; simp [hc, h1]
       · exact Or.inr ⟨b', List.mem_cons_of_mem _ hb'⟩
+  halfXor := by
+    intro x hx
+    rcases List.mem_cons.1 hx with rfl | hx
+    · exact Or.inr ⟨hst, List.mem_cons_self⟩
+    · rcases g.halfXor x hx with ⟨h1, h2⟩ | ⟨h1, h2⟩
+      · refine Or.inl ⟨h1, ?_⟩
+        intro h
+        rcases List.mem_cons.1 h with h | h
+        · exact hst (h ▸ h1)
+        · exact h2 h
+      · exact Or.inr ⟨h1, List.mem_cons_of_mem _ h2⟩
+  halfNodup := by
+    simp only [List.map_cons, List.nodup_cons]
+    refine ⟨?_, g.halfNodup⟩
+    intro h
+    obtain ⟨x, hx, hxc⟩ := List.mem_map.1 h
+    rcases g.halfXor x hx with ⟨h1, _⟩ | ⟨_, h2⟩
+    · exact hst (hxc ▸ h1)
+    · exact hs (hxc ▸ h2)
   storeNodup := g.storeNodup
   sentNodup := List.nodup_cons.2 ⟨hs, g.sentNodup⟩
   inSection := by intro p; simpa using g.inSection p
@@ -128,7 +178,7 @@ theorem good_relay_first {s : State} (g : Good s) {b : Bid} {c : Cid}
     simpa using g.snapNodup p hp
 
 theorem good_relay_second {s : State} (g : Good s) {b : Bid} {c : Cid}
-    (hs : c ∉ s.sent) (hst : c ∈ s.store) :
+    (hs : c ∉ s.sent) (hst : c ∈ s.store) (hm : (b, c) ∈ s.half) :
     Good { s with sent := c :: s.sent, half := s.half.erase (b, c), pl := deliver s.pl c } where
   excl := g.excl
   halfHeld := by
@@ -144,6 +194,17 @@ theorem good_relay_second {s : State} (g : Good s) {b : Bid} {c : Cid}
         have hne : (b', c') ≠ (b, c) := by
           intro h; exact hc (Prod.mk.inj h).2
         exact (List.mem_erase_of_ne hne).2 hb'
+  halfXor := by
+    intro x hx
+    have hne : x.2 ≠ c := snd_ne_of_mem_erase g.halfNodup hm hx
+    rcases g.halfXor x (List.mem_of_mem_erase hx) with ⟨h1, h2⟩ | ⟨h1, h2⟩
+    · refine Or.inl ⟨h1, ?_⟩
+      intro h
+      rcases List.mem_cons.1 h with h | h
+      · exact hne h
+      · exact h2 h
+    · exact Or.inr ⟨h1, List.mem_cons_of_mem _ h2⟩
+  halfNodup := nodup_map_erase g.halfNodup _
   storeNodup := g.storeNodup
   sentNodup := List.nodup_cons.2 ⟨hs, g.sentNodup⟩
   inSection := by intro p; simpa using g.inSection p
@@ -180,7 +241,7 @@ theorem good_relay_second {s : State} (g : Good s) {b : Bid} {c : Cid}
     simpa using g.snapNodup p hp
 
 theorem good_record_first {s : State} (g : Good s) {b : Bid} {c : Cid}
-    (hb : b ∈ s.holding) (hst : c ∉ s.store) :
+    (hb : b ∈ s.holding) (hst : c ∉ s.store) (hs : c ∉ s.sent) :
     Good { s with store := c :: s.store, half := (b, c) :: s.half } where
   excl := g.excl
   halfHeld := by
@@ -195,6 +256,25 @@ theorem good_record_first {s : State} (g : Good s) {b : Bid} {c : Cid}
     · rcases g.settled c' with h1 | ⟨b', hb'⟩
       · left; simp [hc, h1]
       · exact Or.inr ⟨b', List.mem_cons_of_mem _ hb'⟩
+  halfXor := by
+    intro x hx
+    rcases List.mem_cons.1 hx with rfl | hx
+    · exact Or.inl ⟨List.mem_cons_self, hs⟩
+    · rcases g.halfXor x hx with ⟨h1, h2⟩ | ⟨h1, h2⟩
+      · exact Or.inl ⟨List.mem_cons_of_mem _ h1, h2⟩
+      · refine Or.inr ⟨?_, h2⟩
+        intro h
+        rcases List.mem_cons.1 h with h | h
+        · exact hs (h ▸ h2)
+        · exact h1 h
+  halfNodup := by
+    simp only [List.map_cons, List.nodup_cons]
+    refine ⟨?_, g.halfNodup⟩
+    intro h
+    obtain ⟨x, hx, hxc⟩ := List.mem_map.1 h
+    rcases g.halfXor x hx with ⟨h1, _⟩ | ⟨_, h2⟩
+    · exact hst (hxc ▸ h1)
+    · exact hs (hxc ▸ h2)
   storeNodup := List.nodup_cons.2 ⟨hst, g.storeNodup⟩
   sentNodup := g.sentNodup
   inSection := g.inSection
@@ -211,7 +291,7 @@ theorem good_record_first {s : State} (g : Good s) {b : Bid} {c : Cid}
   snapNodup := g.snapNodup
 
 theorem good_record_second {s : State} (g : Good s) {b : Bid} {c : Cid}
-    (hb : b ∈ s.holding) (hst : c ∉ s.store) (hs : c ∈ s.sent) :
+    (hb : b ∈ s.holding) (hst : c ∉ s.store) (hs : c ∈ s.sent) (hm : (b, c) ∈ s.half) :
     Good { s with store := c :: s.store, half := s.half.erase (b, c) } where
   excl := g.excl
   halfHeld := by
@@ -227,6 +307,17 @@ theorem good_record_second {s : State} (g : Good s) {b : Bid} {c : Cid}
         have hne : (b', c') ≠ (b, c) := by
           intro h; exact hc (Prod.mk.inj h).2
         exact (List.mem_erase_of_ne hne).2 hb'
+  halfXor := by
+    intro x hx
+    have hne : x.2 ≠ c := snd_ne_of_mem_erase g.halfNodup hm hx
+    rcases g.halfXor x (List.mem_of_mem_erase hx) with ⟨h1, h2⟩ | ⟨h1, h2⟩
+    · exact Or.inl ⟨List.mem_cons_of_mem _ h1, h2⟩
+    · refine Or.inr ⟨?_, h2⟩
+      intro h
+      rcases List.mem_cons.1 h with h | h
+      · exact hne h
+      · exact h1 h
+  halfNodup := nodup_map_erase g.halfNodup _
   storeNodup := List.nodup_cons.2 ⟨hst, g.storeNodup⟩
   sentNodup := g.sentNodup
   inSection := g.inSection
@@ -254,6 +345,7 @@ theorem good_step {s s' : State} {e : Ev} (g : Good s) (h : step? s e = some s')
         excl := by intro p hp; simp [hc.1] at hp
         halfHeld := by intro x hx; exact List.mem_cons_of_mem _ (g.halfHeld x hx)
         settled := g.settled, storeNodup := g.storeNodup, sentNodup := g.sentNodup
+        halfXor := g.halfXor, halfNodup := g.halfNodup
         inSection := g.inSection, writerBusy := g.writerBusy, snapped := g.snapped
         gotIff := g.gotIff, snapSent := g.snapSent, snapStore := g.snapStore
         gotNodup := g.gotNodup, snapNodup := g.snapNodup }
@@ -265,11 +357,13 @@ theorem good_step {s s' : State} {e : Ev} (g : Good s) (h : step? s e = some s')
       split at h
       · rename_i hst
         split at h
-        · injection h with h; subst h
-          exact good_relay_second g hc.2 hst
+        · rename_i hm
+          injection h with h; subst h
+          exact good_relay_second g hc.2 hst hm
         · cases h
-      · injection h with h; subst h
-        exact good_relay_first g hc.1 hc.2
+      · rename_i hst
+        injection h with h; subst h
+        exact good_relay_first g hc.1 hc.2 hst
     · cases h
   | record b c =>
     simp only [step?] at h
@@ -278,11 +372,13 @@ theorem good_step {s s' : State} {e : Ev} (g : Good s) (h : step? s e = some s')
       split at h
       · rename_i hs
         split at h
-        · injection h with h; subst h
-          exact good_record_second g hc.1 hc.2 hs
+        · rename_i hm
+          injection h with h; subst h
+          exact good_record_second g hc.1 hc.2 hs hm
         · cases h
-      · injection h with h; subst h
-        exact good_record_first g hc.1 hc.2
+      · rename_i hs
+        injection h with h; subst h
+        exact good_record_first g hc.1 hc.2 hs
     · cases h
   | unblock b =>
     simp only [step?] at h
@@ -298,6 +394,7 @@ theorem good_step {s s' : State} {e : Ev} (g : Good s) (h : step? s e = some s')
           intro x hx
           exact (List.mem_erase_of_ne (hc.2 x hx)).2 (g.halfHeld x hx)
         settled := g.settled, storeNodup := g.storeNodup, sentNodup := g.sentNodup
+        halfXor := g.halfXor, halfNodup := g.halfNodup
         inSection := g.inSection, writerBusy := g.writerBusy, snapped := g.snapped
         gotIff := g.gotIff, snapSent := g.snapSent, snapStore := g.snapStore
         gotNodup := g.gotNodup, snapNodup := g.snapNodup }
@@ -317,6 +414,7 @@ theorem good_step {s s' : State} {e : Ev} (g : Good s) (h : step? s e = some s')
         excl := by intro q _; exact hh
         halfHeld := g.halfHeld, settled := g.settled
         storeNodup := g.storeNodup, sentNodup := g.sentNodup
+        halfXor := g.halfXor, halfNodup := g.halfNodup
         inSection := by
           intro q hq
           by_cases hqp : q = p
@@ -363,6 +461,7 @@ theorem good_step {s s' : State} {e : Ev} (g : Good s) (h : step? s e = some s')
       exact {
         excl := g.excl, halfHeld := g.halfHeld, settled := g.settled
         storeNodup := g.storeNodup, sentNodup := g.sentNodup
+        halfXor := g.halfXor, halfNodup := g.halfNodup
         inSection := by
           intro q hq
           by_cases hqp : q = p
@@ -409,6 +508,7 @@ theorem good_step {s s' : State} {e : Ev} (g : Good s) (h : step? s e = some s')
       exact {
         excl := g.excl, halfHeld := g.halfHeld, settled := g.settled
         storeNodup := g.storeNodup, sentNodup := g.sentNodup
+        halfXor := g.halfXor, halfNodup := g.halfNodup
         inSection := by
           intro q hq
           by_cases hqp : q = p
@@ -466,6 +566,7 @@ theorem good_step {s s' : State} {e : Ev} (g : Good s) (h : step? s e = some s')
         excl := by intro q hq; cases hq
         halfHeld := g.halfHeld, settled := g.settled
         storeNodup := g.storeNodup, sentNodup := g.sentNodup
+        halfXor := g.halfXor, halfNodup := g.halfNodup
         inSection := by
           intro q hq
           have h1 := g.inSection q hq
@@ -489,6 +590,7 @@ theorem good_step {s s' : State} {e : Ev} (g : Good s) (h : step? s e = some s')
         excl := by intro q hq; cases hq
         halfHeld := g.halfHeld, settled := g.settled
         storeNodup := g.storeNodup, sentNodup := g.sentNodup
+        halfXor := g.halfXor, halfNodup := g.halfNodup
         inSection := by
           intro q hq
           have hqp : q ≠ p := (by rcases hq with hq | hq <;> exact notP q _ hq (by decide))
@@ -534,6 +636,7 @@ theorem good_step {s s' : State} {e : Ev} (g : Good s) (h : step? s e = some s')
       exact {
         excl := g.excl, halfHeld := g.halfHeld, settled := g.settled
         storeNodup := g.storeNodup, sentNodup := g.sentNodup
+        halfXor := g.halfXor, halfNodup := g.halfNodup
         inSection := by
           intro q hq
           have hqp : q ≠ p := (by rcases hq with hq | hq <;> exact notP q _ hq (by decide))
